@@ -147,6 +147,13 @@ Definition messages_of (st : mstore) (q : bytes) : qview :=
   {| qv_db := under q (ms_db st); qv_add := under q (ms_add st); qv_upd := under q (ms_upd st);
      qv_del := under q (ms_del st); qv_fly := fly_under q (ms_fly st) |}.
 
+(* the ids Added or Updated for queue q *)
+Definition ids_for (q : bytes) (ls : list mlabel) : list N :=
+  flat_map (fun l => match l with
+                     | MAdd m q' | MUpdate m q' => if bytes_eqb q q' then [m_id m] else []
+                     | _ => []
+                     end) ls.
+
 Fixpoint sorted_ids (l : list msg) : bool :=
   match l with
   | a :: ((b :: _) as t) => (m_id a <? m_id b) && sorted_ids t
